@@ -1,13 +1,16 @@
 CFG = {
     "jobs": lambda tier: [
+        J("scaled", "c02-comp --aspect C14", imports="Base Stream Inst Run RunFsComp", shard=20),
         J("scaled", "witness --only C14"),
         J("scaled", "c14"),
     ],
+    "run_modules": ["RunFsComp"],
     "rule": "scaled constants (CHUNK=64, TAG=16): 60 (quick) / 400 (thorough) generated archives with at least one piece (1-4 files, "
             "boundary-sized interleaved pieces around CIPHERBUF/CHUNK/BLOCK, the 4 layer combinations in turn, levels {0,1,5,9,11}, compressible "
             "and random data), flush() called after 1-2 randomly chosen appends; one case per flush: the bytes the destination held when "
             "flush() returned are given to repair; non-trivial = some file byte was appended before the flush; distinct = distinct (plan, flush "
             "point)",
+    "rule_fscomp": 'c02-comp (scaled, BLOCK=256, FSBUF=32): 40 (quick) / 160 (thorough) compressed-only layer streams of 0..3*BLOCK+20 bytes (fixed lengths 0, 1, BLOCK-1, BLOCK, BLOCK+1, 2*BLOCK, 3*BLOCK+20, then random), entropy {runs, text, random} x levels {0, 5, 11}, written in random pieces, every second one with flush() after random pieces; for each stream EVERY truncation length of the wire x read sizes {1, 7, 32, 4096}: the real CompressionLayerFailSafeReader run to the first Ok(0)/error; oracle: for every flush() (destination length f, g plaintext bytes written before), the reader on wire[..f] delivers at least g bytes, for every read size; model comparison at every flush point',
     "exhaustive": {"quick": False, "thorough": False},
     "explanation": "theorems (EncWriterProofs.v, FlushProofs.v): the encryption writer keeps the invariant EwInv s p (ew_out = for every renewed chunk "
                    "ciphertext ++ tag, for the current chunk the ciphertext of what it holds and NO tag, also when the chunk is full) for every "
@@ -23,7 +26,10 @@ CFG = {
                    "destination; unauthenticated repair of the flushed bytes succeeds and every file's recovered bytes start with what was appended "
                    "before the flush; authenticated repair recovers at least what unauthenticated repair recovers from the flushed bytes cut at the "
                    "last complete chunk.",
-    "assumptions": [
+    "explanation_fscomp": "compressed archives (props/C14.v): C14_fs_comp_flush — if the destination holds the complete blocks and the bytes c' the current block's encoder had emitted when flush() returned, and D c' = everything written to that block so far (dec_flush: brotli's flush contract, hypothesis on the wire, observed by the oracle), the fail-safe decompression reader delivers everything written before the flush (D6: pending output is drained at the end of the input).",
+    "trusted_base": ["DecoderLaws (theories/CompFailSafeProofs.v), assumed of brotli's streaming decoder and observed on the real decoder by job c02-comp (fscomp.rs::check_laws, random input slices and output room): D x = maximal output decodable from the consumed bytes x, fin x = x is exactly one complete stream; fin [] = false; fin is prefix-free; D is monotone; a call consumes <= the input and produces <= the room; never consumes past the end of a complete stream; everything emitted so far is a prefix of D(consumed); ResultSuccess only with exactly one complete stream consumed and nothing pending; NeedsMoreInput only with all input consumed and (room exhausted or nothing pending); NeedsMoreOutput only with the room exhausted and something pending; ResultFailure never on bytes consistent with a complete stream. No assumption on how much one call emits otherwise.", 'the bytes after the last compressed block (SizesInfo footer) are `dead` for a fresh decoder: no output and no complete stream on any prefix (complete EMPTY streams inside the footer are covered by listing them as blocks); checked for every generated stream by c02-comp (tail_fail_at)'],
+    "assumptions": ["compression: the encoder side of flush (CompressorWriter::flush emits a flush point making all input so far decodable) is the hypothesis D c' = written, covered by the oracle only",
+                    
         "fewer than 2^32 encryption chunks (current_ctr is a u32; beyond that the writer panics in debug builds: Crash 228 in the model)",
         "the step from 'the fail-safe top layer delivers w_out, which holds the complete blocks' to 'repair recovers these bytes' is the repair "
         "work package's theorem (repair of any prefix of a block stream recovers every complete content block); here it is covered by the "
@@ -32,3 +38,6 @@ CFG = {
         "the destination accepts every write in the c14 cases (C13 lifts this: sink independence)",
     ],
 }
+# work package fscomp: the fail-safe decompression reader (appended to the texts above)
+CFG["rule"] += "; " + CFG.pop("rule_fscomp")
+CFG["explanation"] += " || " + CFG.pop("explanation_fscomp")
